@@ -27,12 +27,15 @@ fn main() {
             }
         };
         let budget: u64 = args.get(3).and_then(|s| s.parse().ok()).unwrap_or(300_000);
+        // optional palette: draw values are taken from this list instead of 0..alphabet
+        let palette: Option<Vec<u8>> = args.get(4).map(|s| s.split(',').filter_map(|v| v.trim().parse().ok()).collect());
         let mut probe = cvh::sym::QueueSrc::new(vec![]);
         let _ = panic::catch_unwind(panic::AssertUnwindSafe(|| body(&mut probe)));
         let _ = cvh::sym::native::take();
         let k = probe.pos;
         let mut a: u64 = 2;
-        while (a + 1).pow(k as u32) <= budget && a < 6 {
+        let amax = palette.as_ref().map(|p| p.len() as u64).unwrap_or(6);
+        while (a + 1).pow(k as u32) <= budget && a < amax {
             a += 1;
         }
         let total = a.pow(k as u32);
@@ -43,7 +46,10 @@ fn main() {
         while idx < total && idx < budget * 4 {
             let mut r = idx;
             for slot in v.iter_mut() {
-                *slot = (r % a) as u8;
+                *slot = match &palette {
+                    Some(p) => p[(r % a) as usize],
+                    None => (r % a) as u8,
+                };
                 r /= a;
             }
             let vals: Vec<Vec<u8>> = v.iter().map(|b| vec![*b]).collect();
